@@ -8,6 +8,8 @@ import (
 	"strings"
 	"time"
 
+	rt "github.com/enbility/spine-go/internal/verifrt"
+
 	"github.com/enbility/spine-go/api"
 	"github.com/enbility/spine-go/internal/verifh/engine"
 	"github.com/enbility/spine-go/internal/verifh/gen"
@@ -294,10 +296,94 @@ func c18Families(thorough bool) []*engine.IFamily {
 
 var staticNow = time.Date(2024, 3, 1, 12, 0, 0, 0, time.UTC)
 
+// c18Digest builds every command shape for one function, sends it through JSON and renders what comes back.
+func c18Digest(fd api.FunctionDataCmdInterface) string {
+	fn := fd.FunctionType()
+	payloadT := reflect.TypeOf(fd.DataCopyAny()).Elem()
+	data := reflect.New(payloadT)
+	data.Elem().Set(refl.Fill(payloadT, 2, 1))
+	_, _ = fd.UpdateDataAny(false, true, data.Interface(), nil, nil)
+	selT, hasSel := selectorsType(fn)
+	elT, hasEl := elementsType(fn)
+	var out []string
+	for _, sh := range cmdShapes {
+		if (sh.needSel && !hasSel) || (sh.needEl && !hasEl) {
+			continue
+		}
+		var sel, el any
+		if sh.needSel {
+			p := reflect.New(selT)
+			p.Elem().Set(refl.Fill(selT, 2, 1))
+			sel = p.Interface()
+		}
+		if sh.needEl {
+			p := reflect.New(elT)
+			p.Elem().Set(refl.Fill(elT, 2, 1))
+			el = p.Interface()
+		}
+		cmd := sh.build(fd, sel, el)
+		b, err := json.Marshal(cmd)
+		var back model.CmdType
+		err2 := json.Unmarshal(b, &back)
+		cd, err3 := back.Data()
+		f := "?"
+		if err3 == nil && cd.Function != nil {
+			f = string(*cd.Function)
+		}
+		fp, fdel := back.ExtractFilter()
+		out = append(out, fmt.Sprint(sh.name, "=", string(b), err, err2, f, fp != nil, fdel != nil))
+	}
+	return strings.Join(out, "\n")
+}
+
+// c18Scenarios: builders, recognisers and the JSON codec keep no state between calls: three goroutines that
+// build, encode and decode commands of unrelated functions get what they get alone (race build on every schedule).
+func c18Scenarios() []*engine.SScenario {
+	return []*engine.SScenario{{Name: "three goroutines build, encode and decode commands of unrelated functions", Run: func(cfg rt.Config) rt.Outcome {
+		var viol []string
+		res := rt.Execute(cfg, func() {
+			now := staticNow
+			vtime.StaticNow = &now
+			defer func() { vtime.StaticNow = nil }()
+			_, regs := acceptedFeatureTypes()
+			pick := func(fn model.FunctionType) api.FunctionDataCmdInterface {
+				for _, r := range regs {
+					if r.fd.FunctionType() == fn {
+						return r.fd
+					}
+				}
+				panic("no " + fn)
+			}
+			fns := []model.FunctionType{model.FunctionTypeLoadControlLimitListData, model.FunctionTypeMeasurementListData, model.FunctionTypeTimeSeriesListData}
+			fds := []api.FunctionDataCmdInterface{pick(fns[0]), pick(fns[1]), pick(fns[2])}
+			want := []string{c18Digest(fds[0]), c18Digest(fds[1]), c18Digest(fds[2])}
+			got := make([]string, 3)
+			rt.BeginExplore()
+			for i := range fds {
+				i := i
+				rt.Go(func() {
+					rt.Yield()
+					got[i] = c18Digest(fds[i])
+				})
+			}
+			rt.WaitIdle()
+			rt.JoinFinished()
+			for i := range want {
+				if got[i] != want[i] {
+					viol = append(viol, fmt.Sprintf("building and decoding a command gives another result when other goroutines do the same for other functions | function=%s", fns[i]))
+				}
+			}
+		})
+		return rt.Outcome{Res: res, Violations: append(viol, panicsAndDeadlocks(res)...), Digest: "ok"}
+	}}}
+}
+
 func init() {
 	engine.Register(&engine.Check{
-		ID:       "C18",
-		Families: func(c *engine.Ctx) []*engine.IFamily { return c18Families(c.Thorough) },
+		ID:        "C18",
+		NeedsRace: true,
+		Scenarios: func(c *engine.Ctx) []*engine.SScenario { return c18Scenarios() },
+		Families:  func(c *engine.Ctx) []*engine.IFamily { return c18Families(c.Thorough) },
 		Run: func(c *engine.Ctx) *engine.Report {
 			rep := &engine.Report{Level: "exploration", Coverage: map[string]any{}}
 			types, regs := acceptedFeatureTypes()
@@ -305,6 +391,10 @@ func init() {
 			rep.Coverage["function_registrations"] = len(regs)
 			rep.Coverage["model_struct_types"] = len(gen.StructTypes)
 			engine.RunFamilies(c, c18Families(c.Thorough), rep)
+			ev, _ := rep.Coverage["evaluations"].(int64)
+			rep.Coverage["states"] = 0
+			rep.Coverage["transitions"] = int(ev)
+			mergeS(c, rep, c18Scenarios(), engine.SPlan{Bounds: []int{0, 1}, Race: true, RaceProp: true})
 			rep.Assumptions = []string{"feature types, functions and model types are discovered from the working tree (generated registry + factory under recover), not hard-coded; selector and elements types are found by the naming convention <Function>SelectorsType / <Function without List>ElementsType"}
 			return rep
 		},
